@@ -88,6 +88,22 @@ def boundOKSkew (I B S : Int) (gs : List Int) : Bool :=
   gs.all fun a => gs.all fun b =>
     if a ≤ b then decide ((countIn gs (a - 1) (b - a + 1) : Int) ≤ B + ceilDiv (b - a + 1 + S) I) else true
 
+/-- Interval observation of one execution: `(lo, hi)` — `lo` is a moment known to precede its
+`RateLimitWait` call (the task was queued / the previous execution of the same queue had started),
+`hi` is the start time the hook process wrote. The grant lies in `[lo, hi]`.
+`countWithin obs a b` = executions whose whole interval lies inside `[a, b]`. -/
+def countWithin (obs : List (Int × Int)) (a b : Int) : Nat :=
+  (obs.filter fun p => decide (a ≤ p.1 ∧ p.2 ≤ b)).length
+
+/-- The bound on an interval observation: for every window `[lo_i, hi_j]` the executions that
+certainly were granted inside it number at most `B + ⌈(hi_j − lo_i + 1 + S)/I⌉`. `S` = 0 for a hook
+that runs in one queue (its request times never go backwards); for several queues `S` is an allowance
+for the clock-read skew of `token_bucket_bound_skew`. No assumption on how late a start is after
+its grant: a `false` cannot be an artefact of slow process start-up. -/
+def boundOKIv (I B S : Int) (obs : List (Int × Int)) : Bool :=
+  obs.all fun p => obs.all fun q =>
+    if p.1 ≤ q.2 then decide ((countWithin obs p.1 q.2 : Int) ≤ B + ceilDiv (q.2 - p.1 + 1 + S) I) else true
+
 end Spec
 
 end ShellOp.RateLimit
